@@ -34,7 +34,9 @@ func (b behaviour) class() string {
 // value of its own, so that "the first error" is an identity.
 type callErr struct{ idx int }
 
-func (e *callErr) Error() string { return fmt.Sprintf("instrumented writer: Write call %d failed", e.idx) }
+func (e *callErr) Error() string {
+	return fmt.Sprintf("instrumented writer: Write call %d failed", e.idx)
+}
 
 type call struct{ off, acc, err int }
 
